@@ -124,6 +124,22 @@ class RawClient:
         return len(self.sock.rx)
 
 
+_RICH_MUTED = False
+
+
+def _mute_rich():
+    """console output of the library's RichHandler is of no interest to any check"""
+    global _RICH_MUTED
+    if not _RICH_MUTED:
+        try:
+            from rich.logging import RichHandler
+
+            RichHandler.emit = lambda self, record: None
+        except Exception:
+            pass
+        _RICH_MUTED = True
+
+
 class World:
     def __init__(self, timecode: bool = False, log_level: int = SILENT, send_msg_timing: bool = True,
                  fin_grace: int = 1, mgr_kwargs: Optional[dict] = None):
@@ -145,10 +161,15 @@ class World:
         self.net.mgr_select = self._mgr_select
         self.net.shuffle = self._shuffle
         self.net.send_observer = self._on_send
+        self.net.pre_send_observer = self._pre_send
+        self.kill_plan: Optional[Tuple[int, list, str]] = None  # (k, [RawClient], 'fin'|'rst'): asynchronous death
+        self.mgr_sends = 0
         self.clients: Dict[Any, RawClient] = {}
         kw = dict(ip_address="127.0.0.1", port=PORT, timecode=timecode, log_level=log_level,
                   send_msg_timing=send_msg_timing)
         kw.update(mgr_kwargs or {})
+        if log_level < SILENT:
+            _mute_rich()
         self.mgr = M.MessageManager(**kw)
         self._silence_console()
         self.thread = threading.Thread(target=self._main, name="vf-mgr", daemon=True)
@@ -188,6 +209,7 @@ class World:
                 raise KeyboardInterrupt
             self.round = Round()
             self.rounds += 1
+            self.mgr_sends = 0
             ready = [s for s in r if s.readable()]
             self.round.ready = list(ready)
             return ready, [], []
@@ -207,6 +229,18 @@ class World:
                 raise HarnessError(f"service-order choice {k} out of range for {len(lst)} ready sockets")
             lst[:] = nth_permutation(lst, k)
         self.round.order = k
+
+    def _pre_send(self, sock):
+        """a peer may die at any instant: the harness can schedule a death right before the
+        manager's k-th send call of the current round"""
+        if sock.role != "mgr":
+            return
+        self.mgr_sends += 1
+        if self.kill_plan is not None and self.mgr_sends >= self.kill_plan[0]:
+            _, victims, how = self.kill_plan
+            self.kill_plan = None
+            for v in victims:
+                v.fin() if how == "fin" else v.rst()
 
     def _on_send(self, sock, data, delivered):
         if sock.role == "mgr":
